@@ -828,78 +828,64 @@ Proof.
     rewrite <- app_assoc, firstn_skipn. exact Hs.
 Qed.
 
+Ltac inv_fin Hs Hc Hr Hw Hn :=
+  constructor; cbn; intros;
+  first
+  [ discriminate
+  | assumption
+  | reflexivity
+  | (left; reflexivity)
+  | (right; reflexivity)
+  | (rewrite app_assoc, Hs; reflexivity)
+  | (rewrite <- app_assoc, firstn_skipn; exact Hs)
+  | (match goal with H : Some _ = Some _ |- _ => injection H as <- end; apply Hn; reflexivity)
+  | (match goal with H : PWoken _ _ = PWoken _ _ |- _ => injection H as <- end; eapply Hw; reflexivity)
+  | (match goal with H : PWoken _ _ = PWoken _ _ |- _ => injection H as <- <- end; eapply Hw; reflexivity)
+  | (match goal with H : PChecked _ = PChecked _ |- _ => injection H as <- end; eapply Hc; [reflexivity|eassumption])
+  | (eapply Hn; eassumption)
+  | idtac ].
+
 Lemma lstep_inv : forall s l s', linv s -> lstep s l = Some s' -> linv s'.
 Proof.
   intros s l s' [Hs Hc Hr Hw Hn] H. unfold lstep in H.
-  destruct l as [n| | |d|]; destruct (l_pc s) as [|m|m|m o] eqn:Epc; try discriminate.
+  destruct l as [n| | |d|]; destruct (l_pc s) as [|m|m|m o] eqn:Epc; try discriminate;
+    cbn [pc_n] in Hn.
   - (* LStart *)
     destruct (n =? 0) eqn:E0; [discriminate|]. injection H as <-.
     apply read_locked_inv; [apply Nat.eqb_neq; exact E0|exact Hs].
   - (* LWait at PChecked *)
     assert (Hm : m <> 0) by (apply Hn; reflexivity).
     destruct (l_tok s) eqn:Et.
-    + injection H as <-. constructor; cbn; intros; try discriminate; try assumption.
-      injection H as <-. exact Hm.
+    + injection H as <-. inv_fin Hs Hc Hr Hw Hn.
     + destruct (l_closed s) eqn:Ecl.
-      * injection H as <-. constructor; cbn; intros; try discriminate; try assumption; try reflexivity.
-        injection H as <-. exact Hm.
-      * injection H as <-. constructor; cbn; intros; try discriminate; try assumption.
-        -- split; [|split; reflexivity].
-           destruct (l_buf s) as [|b0 br] eqn:Eb; [reflexivity|].
-           destruct (Hc m eq_refl) as [Ht|Hcl]; [discriminate|congruence|congruence].
-        -- injection H as <-. exact Hm.
+      * injection H as <-. inv_fin Hs Hc Hr Hw Hn.
+      * injection H as <-. inv_fin Hs Hc Hr Hw Hn.
+        split; [|split; reflexivity].
+        destruct (l_buf s) as [|b0 br] eqn:Eb; [reflexivity|].
+        destruct (Hc m eq_refl) as [Ht|Hcl]; [discriminate|congruence|congruence].
   - (* LResume *)
     assert (Hm : m <> 0) by (apply Hn; reflexivity).
     destruct o.
     + injection H as <-. apply read_locked_inv; assumption.
-    + destruct (l_buf s) as [|b0 br] eqn:Eb.
-      * injection H as <-. constructor; cbn; intros; try discriminate. rewrite <- Hs, Eb. reflexivity.
-      * rewrite <- Eb in *. injection H as <-. constructor; cbn; intros; try discriminate.
-        rewrite <- app_assoc, firstn_skipn. exact Hs.
+    + destruct (l_buf s) as [|b0 br] eqn:Eb; injection H as <-; inv_fin Hs Hc Hr Hw Hn.
   - (* LDeliver, reader idle *)
-    destruct (l_closed s) eqn:Ecl; injection H as <-; constructor; cbn; intros; try discriminate; try assumption.
-    + rewrite Epc in *. discriminate.
-    + rewrite Epc in *. discriminate.
-    + rewrite Epc in *. discriminate.
-    + rewrite Epc in *. discriminate.
-    + rewrite app_assoc, Hs. reflexivity.
+    destruct (l_closed s) eqn:Ecl; injection H as <-; inv_fin Hs Hc Hr Hw Hn.
   - (* LDeliver, reader at checked *)
-    destruct (l_closed s) eqn:Ecl; injection H as <-; constructor; cbn; intros; try discriminate; try assumption.
-    + right. reflexivity.
-    + rewrite Epc in *. discriminate.
-    + rewrite Epc in *. discriminate.
-    + rewrite Epc in *. apply (Hn n). exact H.
-    + rewrite app_assoc, Hs. reflexivity.
-    + left. reflexivity.
-    + apply (Hn n). rewrite Epc. exact H.
+    destruct (l_closed s) eqn:Ecl; injection H as <-; inv_fin Hs Hc Hr Hw Hn.
   - (* LDeliver, reader in the receive *)
     destruct (Hr m eq_refl) as [Hb [Ht Hcl]]. rewrite Hcl in H. injection H as <-.
-    constructor; cbn; intros; try discriminate.
-    + rewrite app_assoc, Hs. reflexivity.
-    + injection H as <-. apply Hn. reflexivity.
+    inv_fin Hs Hc Hr Hw Hn.
   - (* LDeliver, reader woken *)
-    destruct (l_closed s) eqn:Ecl; injection H as <-; constructor; cbn; intros; try discriminate; try assumption.
-    + rewrite Epc in *. discriminate.
-    + rewrite Epc in *. discriminate.
-    + reflexivity.
-    + rewrite Epc in *. apply (Hn n). exact H.
-    + rewrite app_assoc, Hs. reflexivity.
-    + rewrite Epc in *. discriminate.
-    + rewrite Epc in *. discriminate.
-    + rewrite Epc in H. injection H as <- <-. apply (Hw m). reflexivity.
-    + apply (Hn n). rewrite Epc. exact H.
+    destruct (l_closed s) eqn:Ecl; injection H as <-; inv_fin Hs Hc Hr Hw Hn.
   - (* LClose, idle *)
-    injection H as <-. constructor; cbn; intros; try discriminate; try assumption.
+    injection H as <-. inv_fin Hs Hc Hr Hw Hn.
   - (* LClose, checked *)
-    injection H as <-. constructor; cbn; intros; try discriminate; try assumption.
-    + right. reflexivity.
-    + injection H as <-. apply Hn. reflexivity.
+    injection H as <-. inv_fin Hs Hc Hr Hw Hn.
   - (* LClose, in the receive *)
-    injection H as <-. constructor; cbn; intros; try discriminate; try assumption; try reflexivity.
-    injection H as <-. apply Hn. reflexivity.
+    injection H as <-. inv_fin Hs Hc Hr Hw Hn.
   - (* LClose, woken *)
-    injection H as <-. constructor; cbn; intros; try discriminate; try assumption; try reflexivity.
-    injection H as <- . apply Hn. reflexivity.
+    injection H as <-. inv_fin Hs Hc Hr Hw Hn.
+    Show.
 Qed.
 
 Theorem linv_reachable : forall tr s, lrun l_init tr = Some s -> linv s.
